@@ -67,6 +67,9 @@ ASSUMPTIONS = [
     "denotes there; mako: still the finished loop, index = n)",
     "a closure (nested def, <%call> body) under a `% for` either reads the enclosing `loop` or has loops of its own "
     "in the main streams (both at once is the recorded finding F-C03-7)",
+    "a nested def that reads the enclosing `loop` is called at the level of that loop only, not from a deeper "
+    "`% for` (there the closure sees the deeper loop - Python's closure semantics - while textually its innermost "
+    "enclosing loop is the outer one; the property text leaves it open)",
     "`_FOR_LOOP` (the regex that splits a `% for` header) is a parameter of the Lean model: the harness supplies "
     "target and iterable of the generated header",
     "the shared specification renderer (Codegen/Spec.lean) gives a nested def / <%call> body no enclosing loop; "
@@ -439,8 +442,6 @@ def hazards(body):
     """names of the recorded-finding shapes present in a template (sorted list)"""
     hz = set()
     for n in G.walk(body):
-        if n[0] == "for" and n[5].get("cmt") and ":" in n[5]["cmt"] and G.detected(n):
-            hz.add("for-comment-colon")
         if n[0] in ("def", "block"):
             fl = n[3] if n[0] == "def" else n[2]
             if (fl["buffered"] or fl["filters"]) and any(
@@ -1031,8 +1032,6 @@ def quirk_trees():
         "unsized-len": [
             [["for", 1, ["gen", [["lit", "p"], ["lit", "q"]]], [["expr", ["loop", "last"]]], None, _o(2)]],
             [["for", 1, ["iter", [["lit", "p"], ["lit", "q"]]], [["expr", ["loop", "reverse_index"]]], None, _o(2)]]],
-        "for-comment-colon": [
-            [["for", 1, ["list", [["lit", "p"]]], [loop_i], None, {"mg": [["", " "], ["", " "]], "cmt": "note: x"}]]],
     }
 
 
@@ -1043,7 +1042,6 @@ QUIRKS = [
     ("loop-only-in-call-expr", dict(loop_only_in_closure=True, loop_only_in_call_expr=True, p_loop_use=0.1,
                                     constructs={"text": 3, "expr": 3, "for": 6, "def": 4, "call": 6})),
     ("unsized-len", dict(unsized_len=True, p_loop_use=0.95, constructs={"text": 3, "expr": 8, "for": 6, "if": 2})),
-    ("for-comment-colon", dict(for_comment_colon=True, p_loop_use=0.95, constructs={"text": 3, "expr": 6, "for": 6})),
     ("closure-mixed", dict(closure_mixed=True, p_loop_use=0.95, constructs={"text": 3, "expr": 6, "for": 6, "def": 4,
                                                                              "call": 4})),
 ]
@@ -1116,7 +1114,9 @@ def handwritten(ctx):
                             "% for a in b:\n<%def name=\"e()\">zz</%def>\\\n% endfor\nok${d()}", {"x": 0, "y": 1, "b": [1]}, "okq", None),
         ("continued-clauses", "% if a:\nx\n% elif b and \\\n     c:\ny\n% endif\n% try:\n${kboom()}\n% except (KeyError, \\\n    ValueError):\nz\n% endtry\n",
          {"a": 0, "b": 1, "c": 1, "__k": 0}, "y\nz\n", None),
-        ("header-formfeed", "% if x:\x0c\nA\n% endif\n", {"x": 1}, "A\n", "header-trailing-formfeed"),
+        ("header-formfeed", "% if x:\x0c\nA\n% endif\n", {"x": 1}, "A\n", None),
+        ("for-comment-colon", "% for a in [1, 2]: # note: x\n${loop.index}\n% endfor\n% for a in {1: 2}:   # c\n"
+                              "${loop.index}${a}\n% endfor\n", {}, "0\n1\n01\n", None),
     ]
     for name, src, data, expect, site in H:
         st["cases"] += 1
